@@ -1,4 +1,5 @@
-use super::swift_utils::{parse_alphanumeric, parse_exact_length};
+use super::swift_utils::parse_exact_length;
+use crate::errors::ParseError;
 use crate::traits::SwiftField;
 use serde::{Deserialize, Serialize};
 
@@ -29,7 +30,15 @@ impl SwiftField for Field26T {
         let type_code = parse_exact_length(input, 3, "Field 26T type code")?;
 
         // Must be alphanumeric
-        parse_alphanumeric(&type_code, "Field 26T type code")?;
+        // 3!c: upper-case letters and digits
+        if !type_code
+            .chars()
+            .all(|c| c.is_ascii_uppercase() || c.is_ascii_digit())
+        {
+            return Err(ParseError::InvalidFormat {
+                message: "Field 26T type code must be 3 upper-case letters or digits".to_string(),
+            });
+        }
 
         Ok(Field26T { type_code })
     }
